@@ -534,9 +534,9 @@ func (x *X) threadEnabled(t *Thread) bool {
 	return ls.writer == nil
 }
 
-func (x *X) stateKey() string {
+func (x *X) stateKey(gk string) string {
 	var b strings.Builder
-	b.WriteString(x.keyFn())
+	b.WriteString(gk)
 	b.WriteString("|T")
 	// Harness threads in id order, anonymous ones sorted by rendering.
 	var anon []string
@@ -683,8 +683,12 @@ func (x *X) run() {
 		// State pruning (only beyond the replayed prefix).
 		idx := len(x.trace)
 		key := ""
+		gk := ""
+		if x.keyFn != nil && !x.pruned && !failed {
+			gk = x.keyFn()
+		}
 		if x.keyFn != nil && !x.pruned && !failed && idx >= x.branchFrom {
-			key = x.stateKey()
+			key = x.stateKey(gk)
 			if x.visit != nil && !x.visit(key, x.curCost) {
 				x.pruned = true
 			}
@@ -737,9 +741,7 @@ func (x *X) run() {
 			hb[i] = byte(t.hist >> (8 * i))
 		}
 		h.Write(hb[:])
-		if x.keyFn != nil {
-			h.Write([]byte(x.keyFn()))
-		}
+		h.Write([]byte(gk))
 		h.Write([]byte(t.pend.label))
 		h.Write([]byte{byte(a.sub)})
 		t.hist = h.Sum64()
